@@ -15,6 +15,7 @@ output is byte-identical to the fault-free output (cell contents for workbooks).
 """
 import io
 import os
+import re
 import tempfile
 
 from hypothesis import strategies as st
@@ -220,7 +221,7 @@ def _check_api(m, v, stats):
                 v.append(("api:faultfree_differs:%s" % target, "k=total+1 must reproduce the fault-free output"))
 
 
-def _potable_text(m, kind, row):
+def _potable_text(m, kind, row, which=0):
     """model text in which a function of the given kind leaves the domain of pymath.sqrt from `row` on"""
     g = m["grid"]
     secs = anymodel.sections_of(m)
@@ -230,8 +231,14 @@ def _potable_text(m, kind, row):
     row = max(1, min(row, n - 1))
     limit = (row - 0.5) * step
     # ... or of the expression language's own sqrt / log (which evaluate to nan there instead of raising: F59)
-    formula = ["pymath.sqrt(%r - r)", "sqrt(%r - r)", "log(%r - r)", "pymath.log(%r - r)"][(row + len(kind)) % 4] % limit
-    secs.append(["Potential-Form", [["faulty(r)", formula]]])
+    which = which % 5
+    if which == 4:
+        # ... or a power of a base that turns negative under a non-integral exponent (complex in Python: F61)
+        faulty = "pow(as.polynomial %r -1, as.constant 0.5)" % limit
+    else:
+        formula = ["pymath.sqrt(%r - r)", "sqrt(%r - r)", "log(%r - r)", "pymath.log(%r - r)"][which] % limit
+        secs.append(["Potential-Form", [["faulty(r)", formula]]])
+        faulty = "faulty"
     name = {"pair": "Pair", "embed": "EAM-Embed", "density": "EAM-Density", "dipole": "EAM-ADP-Dipole",
             "quadrupole": "EAM-ADP-Quadrupole"}[kind]
     sec = [s for s in secs if s[0] == name]
@@ -243,29 +250,37 @@ def _potable_text(m, kind, row):
         if m["kind"] == "pair":
             if not sec[1]:
                 return None
-            sec[1][-1][1] = "faulty"
+            sec[1][-1][1] = faulty
         else:
             els = sorted(eamtab.element_set(m))
             key = "%s-%s" % (els[0], els[0])
             sec[1][:] = [e for e in sec[1] if set(anymodel.species_of_key("Pair", e[0])) != {els[0]}]
-            sec[1].append([key, "faulty"])
+            sec[1].append([key, faulty])
     elif kind in ("dipole", "quadrupole"):
         els = sorted(eamtab.element_set(m))
         sec[1][:] = [e for e in sec[1] if set(anymodel.species_of_key("Pair", e[0])) != {els[0]}]
-        sec[1].append(["%s-%s" % (els[0], els[0]), "faulty"])
+        sec[1].append(["%s-%s" % (els[0], els[0]), faulty])
     else:
         if not sec[1]:
             return None
-        sec[1][-1][1] = "faulty"
+        sec[1][-1][1] = faulty
     return anymodel.text_of(secs)
 
 
 def _check_potable(m, v, stats, cli=False):
     target = m["target"]
     kinds = ["pair"] if m["kind"] == "pair" else ["pair", "embed", "density"] + (["dipole", "quadrupole"] if m["kind"] == "adp" else [])
+    counter = m["fault_row"]
+    specs = []
     for kind in kinds:
         for row in sorted(set([1, m["fault_row"], 99])):
-            text = _potable_text(m, kind, row)
+            counter += 1
+            specs.append((kind, row, counter))               # the five ways of leaving a domain in turn
+    specs.append(("pair", 2, 4))                             # ... and the complex power for every model
+    specs.append(("pair", 2, 1))                             # ... and the expression language's own sqrt
+    for kind, row, which in specs:
+        if True:
+            text = _potable_text(m, kind, row, which)
             if text is None:
                 continue
             stats["evaluations"] += 1
@@ -281,7 +296,7 @@ def _check_potable(m, v, stats, cli=False):
                 # no failure reached (e.g. a species the writer ignores): nothing to check - except that a function
                 # which cannot be evaluated must not have been tabulated as 'nan' either
                 written = anymodel.normalise_output(target, fp.getvalue())
-                if "nan" in written.lower():
+                if "nan" in written.lower() or re.search(r"[0-9]j(\s|$|\")", written):
                     v.append(("potable:no_failure:%s:%s" % (target, kind),
                               "a %s function that is undefined from row %d on did not fail: the table holds nan\n%s" % (kind, row, text)))
                 continue
